@@ -112,6 +112,22 @@ def _place(m, a):
         env.add_agent(a)
 
 
+class Completer(System):
+    """completes the model at a given timestep and keeps using the environment's random services afterwards"""
+
+    def __init__(self, model, at):
+        super().__init__("completer", model, priority=-3)
+        self.at = at
+
+    def execute(self):
+        m = self.model
+        if m.systems.timestep == self.at:
+            m.complete()
+            a = m.environment.get_random_agent()
+            m.trace.append(("pick-after-complete", None if a is None else a.id, len(m.environment)))
+            m.trace.append(("shuffle-after-complete", tuple(x.id for x in m.environment.shuffle())))
+
+
 class Tracer(System):
     def execute(self):
         self.model.trace.append(("t", self.model.systems.timestep, tuple(a.id for a in self.model.environment)))
@@ -170,13 +186,22 @@ class TrajModel(Model):
                 self.systems.add_system(Shuffler(sid, self, priority=10 - k))
             elif kind == "birthdeath":
                 self.systems.add_system(BirthDeath(sid, self, priority=10 - k))
+        if cfg.get("complete_at") is not None:
+            self.systems.add_system(Completer(self, int(cfg["complete_at"])))
         self.systems.add_system(AgentCollector(self, _val, includeTimstep=True))
         self.systems.add_system(TraceCollector(self))
         if perturb:
             self.systems.add_system(Perturber(self, perturb))
 
     def final_trace(self):
-        return list(self.trace) + [("records", json.dumps(self.systems["AgentCollector"].records, sort_keys=True, default=str))]
+        # the environment's random services are used once more after the run (also on a completed model)
+        post = []
+        for _ in range(3):
+            a = self.environment.get_random_agent()
+            post.append(None if a is None else a.id)
+        post.append(tuple(x.id for x in self.environment.shuffle()))
+        return list(self.trace) + [("post", tuple(post)),
+                                   ("records", json.dumps(self.systems["AgentCollector"].records, sort_keys=True, default=str))]
 
 
 def run_plain(seed, cfg, steps, perturb=None, interleave=None):
@@ -248,7 +273,7 @@ def _run_case(case):
         if len(mine) != 1:
             raise Violation("batch-result-missing", f"batch_run returned {len(res)} results, {len(mine)} for seed {seed}")
         got = [tuple(_tupled(e)) for e in mine[0]["trace"]] + [("records", json.dumps(mine[0]["AgentCollector"], sort_keys=True, default=str))]
-        if got != [tuple(_tupled(e)) for e in ref]:
+        if got != [tuple(_tupled(e)) for e in ref if e[0] != "post"]:
             raise Violation("depends-on-process", _diff(f"run as a batch worker (processes={procs})", ref, got, cfg, seed))
         labels.add(f"batch-p{procs}")
     other = run_plain(seed + 1, cfg, steps)
@@ -298,14 +323,16 @@ def strategy(tier):
     kinds = st.lists(st.sampled_from(["mover", "picker", "picker", "picker_t", "picker_tag", "shuffler", "shuffler", "birthdeath"]),
                      min_size=1, max_size=5)
     cfg = st.fixed_dictionaries({"world": st.sampled_from(["plain", "grid", "space"]), "wrap": st.booleans(), "pop": st.integers(3, 12),
-                                 "systems": kinds, "steps": st.integers(5, 15)})
+                                 "systems": kinds, "steps": st.integers(5, 15),
+                                 "complete_at": st.sampled_from([None, None, None, 2, 4, 7])})
     single = st.fixed_dictionaries({"kind": st.just("single"), "seed": seeds, "cfg": cfg,
                                     "perturb": st.lists(st.integers(-10 ** 9, 10 ** 9), min_size=1, max_size=4),
                                     "interleave": st.lists(seeds, max_size=3),
                                     "batch": st.sampled_from([0, 0, 0, 0, 1, 2, 3])})
     big = st.sampled_from([2 ** 64 + 3, -2 ** 70, 2 ** 64, -2 ** 64, 2 ** 200 + 1, 10 ** 30])
     rich = st.fixed_dictionaries({"world": st.sampled_from(["plain", "grid", "space"]), "wrap": st.booleans(), "pop": st.integers(4, 12),
-                                  "systems": kinds.map(lambda k: ["picker", "shuffler"] + k[:3]), "steps": st.integers(5, 12)})
+                                  "systems": kinds.map(lambda k: ["picker", "shuffler"] + k[:3]), "steps": st.integers(5, 12),
+                                  "complete_at": st.sampled_from([None, None, 3])})
     one = wone_of(st.fixed_dictionaries({"seed": seeds, "cfg": cfg}), st.fixed_dictionaries({"seed": big, "cfg": rich}),
                   st.fixed_dictionaries({"seed": seeds, "cfg": rich}))
     hashs = st.fixed_dictionaries({"kind": st.just("hashseed"), "configs": st.lists(one, min_size=8, max_size=8),
